@@ -43,6 +43,14 @@ CF_EXPLAIN = {
 
 
 TYPE_NAME_DECL = re.compile(r"\b(var|let|const|fn|struct|override)\s+(i32|u32|f32|f16|bool|vec[234]|mat[234]x[234]|array|atomic|ptr|sampler)\b")
+# transliterations of ir/validate.go the extracted tool evaluates: (name, field of its output)
+VARIANTS = (("pinned", "errors"), ("fixed", "errors_fixed"), ("fixed2", "errors_fixed2"))
+VARIANT_TEXT = {
+    "pinned": "pinned (Valid/ValidatorModel.v: completeness refuted, validator_*_complete_partial apply)",
+    "fixed": "fixed (Valid/ValidatorModelFixed.v kc=false = checks/c08_proposed_fixes/validate.diff: fixed_validator_*_complete apply)",
+    "fixed2": "fixed2 (Valid/ValidatorModelFixed.v kc=true = checks/c08_proposed_fixes/validate_suitesafe.diff: "
+              "fixed2_validator_cf_complete_partial (no discard in continuing) and fixed2_validator_bindings_complete apply)",
+}
 SHRINK_BUDGET = 700      # shrinker: acceptdrive+model evaluations per violation
 
 
@@ -300,7 +308,7 @@ def run(ctx):
     nontrivial = 0
     tie_broken = None
     reported = set()
-    variant_mismatch = {"pinned": 0, "fixed": 0}
+    variant_mismatch = {v: 0 for v, _ in VARIANTS}
     first_mismatch = {}
     for i, (p, r, mo, sets) in enumerate(zip(progs, results, models, setlists)):
         stats["by_kind"][p.kind] = stats["by_kind"].get(p.kind, 0) + 1
@@ -318,7 +326,7 @@ def run(ctx):
             g = [L.classify_verr(e) for e in r.get("validate") or []]
             stats["validator_tie_compared"] += 1
             stats["go_validation_errors_compared"] += len(g)
-            for variant, field in (("pinned", "errors"), ("fixed", "errors_fixed")):
+            for variant, field in VARIANTS:
                 m = [L.model_verr(e) for e in mo[field]]
                 if g != m:
                     variant_mismatch[variant] += 1
@@ -367,18 +375,17 @@ def run(ctx):
                         "spec_legal": legal})
     # which transliteration of ir/validate.go does /repo match?  (the pinned one, or the one repaired as
     # proposed; modules on which the two agree do not discriminate)
-    if variant_mismatch["pinned"] == 0:
-        variant = "pinned (Valid/ValidatorModel.v: completeness refuted, partial theorems apply)"
-    elif variant_mismatch["fixed"] == 0:
-        variant = "fixed (Valid/ValidatorModelFixed.v: fixed_validator_*_complete apply)"
+    matched = [v for v, _ in VARIANTS if variant_mismatch[v] == 0]
+    if matched:
+        variant = VARIANT_TEXT[matched[0]]         # several match only if no module of the run discriminates
     else:
         variant = "none"
         stats["validator_tie_mismatches"] = min(variant_mismatch.values())
         fm = first_mismatch["pinned"]
-        tie_broken = tie_broken or ("naga.Validate matches neither transliteration of ir/validate.go: on %s naga reports %s, "
-                                    "the pinned model %s, the repaired model %s"
-                                    % (fm["program"], fm["naga"][:3], fm["model"][:3],
-                                       first_mismatch.get("fixed", {}).get("model", [])[:3]))
+        tie_broken = tie_broken or ("naga.Validate matches none of the transliterations of ir/validate.go (%s): on %s naga "
+                                    "reports %s, the pinned model %s"
+                                    % (", ".join("%s: %d mismatches" % kv for kv in sorted(variant_mismatch.items())),
+                                       fm["program"], fm["naga"][:3], fm["model"][:3]))
         ctx.cov["first_tie_mismatch"] = first_mismatch
     ctx.cov["validator_variant_matched"] = variant
     stats["validator_variant_mismatches"] = variant_mismatch
